@@ -753,13 +753,96 @@ def set_on(items, target, field, key, val):
 
 
 def set_on_members(items, target, field, key, val):
-    """Set on every function below `target` (all functions when target == ())."""
+    """Set on every function below `target` (all functions when target == ()) that has no nearer definition of
+    `key`: a function that sets it itself, or sits in an intermediate container that does, keeps what it sees."""
+    def walk(lst, path, inside, shadowed):
+        out = []
+        for idx, it in enumerate(lst):
+            p = path + (idx,)
+            ins = inside or p == target
+            if it[0] == "fn":
+                if inside and not shadowed and key not in it[field]:
+                    d = dict(it[field]); d[key] = val
+                    it = it[:field] + (d,) + it[field + 1:]
+            else:
+                sh = shadowed or (inside and key in it[field])
+                it = it[:4] + (walk(it[4], p, ins, sh),) + it[5:]
+            out.append(it)
+        return out
+    return walk(items, (), target == (), False)
+
+
+def sprinkle(r, items, opt_cases, fmt_cases, defaults_o, prob=0.3):
+    """Background customisation: options and format fields on every level of the tree (default or alternative value)."""
     def f(it, p):
-        if it[0] == "fn" and p[:len(target)] == target and len(p) > len(target):
-            d = dict(it[field]); d[key] = val
-            return it[:field] + (d,) + it[field + 1:]
-        return it
+        o, fm = dict(it[2]), dict(it[3])
+        if opt_cases and r.random() < prob:
+            k, v = r.choice(opt_cases)
+            o[k] = v if r.random() < 0.6 else defaults_o.get(k, v)
+        if fmt_cases and r.random() < prob:
+            k, v = r.choice(fmt_cases)
+            fm[k] = v + "bg"
+        return it[:2] + (o, fm) + it[4:]
     return map_tree(items, f)
+
+
+def tree_stats(items, depth=1, stats=None, chain=()):
+    """distribution of the generated trees: depth, block-in-block nesting, customised levels"""
+    if stats is None:
+        stats = collections.Counter()
+    for it in items:
+        stats["nodes_" + it[0]] += 1
+        if it[2] or it[3]:
+            stats["customised_" + it[0]] += 1
+        if it[0] != "fn":
+            ch = chain + (it[0],)
+            stats["max_depth"] = max(stats["max_depth"], depth)
+            nb = 0
+            for k in reversed(ch):
+                if k != "block":
+                    break
+                nb += 1
+            stats["max_block_nesting"] = max(stats["max_block_nesting"], nb)
+            if nb >= 2:
+                stats["block_in_block"] += 1
+                if it[2] or it[3] or True:
+                    pass
+            if it[0] == "block" and len(ch) >= 2 and ch[-2] in ("cls", "ns"):
+                stats["block_in_" + ch[-2]] += 1
+            tree_stats(it[4], depth + 1, stats, ch)
+    return stats
+
+
+def nested_lib_doc(r, name, python):
+    """Recursive generator: namespaces, classes and blocks nested up to four deep, blocks in blocks in
+    library / namespace / class."""
+    cnt = [0]
+
+    def fn(inclass):
+        cnt[0] += 1
+        return ("fn", "f%d" % cnt[0], {}, {}, r.choice(POOL_FREE[:9] if inclass else POOL_FREE))
+
+    def scope(kind, depth, inclass):
+        cnt[0] += 1
+        kids = []
+        for _ in range(r.randrange(1, 4)):
+            c = r.random()
+            if depth < 4 and c < 0.45:
+                kids.append(scope("block", depth + 1, inclass))
+            elif depth < 3 and c < 0.55 and not inclass:
+                kids.append(scope("ns", depth + 1, False))
+            elif depth < 3 and c < 0.68 and not inclass:
+                kids.append(scope("cls", depth + 1, True))
+            else:
+                kids.append(fn(inclass))
+        if not any(k[0] == "fn" for k in kids):
+            kids.append(fn(inclass))
+        return (kind, {"ns": "N%d", "cls": "K%d", "block": "B%d"}[kind] % cnt[0], {}, {}, kids)
+
+    items = [scope("block", 1, False), scope("ns", 1, False), scope("cls", 1, True), fn(False)]
+    r.shuffle(items)
+    opts = {"debug_testsuite": True, "wrap_python": python, "wrap_lua": False}
+    return {"library": name, "cxx_header": name + ".hpp", "options": opts, "format": {}, "tree": items}
 
 
 def run_doc(doc, scr, tag):
@@ -918,8 +1001,16 @@ def oracle_pairs(ctx, scr, thorough, fs_options, fs_formats, defaults_o, default
     ctx.note("oracle_options", [o for o, _ in opt_cases])
     ctx.note("oracle_formats", [f for f, _ in fmt_cases])
 
+    stats = collections.Counter()
     for li in range(nlib):
-        doc = lib_doc(r, "eqv%d" % li, python=(li % 2 == 0), simple=("minimal" if li == 0 else li == 1))
+        if li >= 2 and li % 2 == 0:
+            doc = nested_lib_doc(r, "eqv%d" % li, python=(li % 4 == 0))
+        else:
+            doc = lib_doc(r, "eqv%d" % li, python=(li % 2 == 0), simple=("minimal" if li == 0 else li == 1))
+        if li >= 2:
+            # options + format already present on every level (the tested key may be among them: nearer definitions)
+            doc["tree"] = sprinkle(r, doc["tree"], opt_cases, fmt_cases, defaults_o)
+        tree_stats(doc["tree"], stats=stats)
         base_tree, eb, _ = run_doc(doc, scr, "base%d" % li)
         if eb:
             ctx.note("generated_library_rejected_%d" % li, eb)
@@ -930,8 +1021,11 @@ def oracle_pairs(ctx, scr, thorough, fs_options, fs_formats, defaults_o, default
             fname = "options" if field == 2 else "format"
             for key, val in cases:
                 placements = [((), "library")] + [(p, it[0]) for p, it in conts]
-                if not thorough:
-                    placements = [placements[0]] + r.sample(placements[1:], min(2, len(placements) - 1))
+                if not thorough and len(placements) > 7:
+                    # quick: the library, every container that itself contains a container (nesting), a sample of the rest
+                    nest = [pl for pl, (p_, it_) in zip(placements[1:], conts) if any(k[0] != "fn" for k in it_[4])]
+                    rest = [pl for pl in placements[1:] if pl not in nest]
+                    placements = [placements[0]] + nest + r.sample(rest, min(2, len(rest)))
                 for p, kind in placements:
                     a = copy.deepcopy(doc)
                     b = copy.deepcopy(doc)
@@ -982,6 +1076,8 @@ def oracle_pairs(ctx, scr, thorough, fs_options, fs_formats, defaults_o, default
             b = copy.deepcopy(doc)
             b["tree"] = wrap(doc["tree"])
             orc.compare_docs("empty-block", "empty-block", "empty block inserted", doc, b, skip_json=False)
+
+    ctx.note("oracle_tree_distribution", dict(stats))
 
     # ---------- inline attributes vs attrs / fattrs
     for i in range(24 if thorough else 12):
